@@ -221,22 +221,35 @@ def _rel_raise_warning(level, maxlen):
     def raising(s):
         raise ValueError("user check raised")
 
+    def col(s):
+        return s if level != "frame" else s["a"]
+
+    # shapes of the check output: an element-aligned boolean series, one scalar bool for the whole object (no per-element failure
+    # cases exist then), a per-element python bool (element_wise); a function that raises
+    shapes = {
+        "series": lambda f: (lambda s: col(s).map(f), {}),
+        "scalar": lambda f: (lambda s: bool(col(s).map(f).all()), {}),
+        "element_wise": lambda f: ((lambda x: bool(f(x["a"]))) if level == "frame" else (lambda x: bool(f(x))), {"element_wise": True}),
+    }
     for pname, f in list(PREDS.items()) + [("raises", None)]:
+      for shape in (shapes if f is not None else ["raises"]):
         for vec in _vectors(maxlen):
             n += 1
             if f is None:
                 mk = lambda **kw: pa.Check(raising, **kw)
             else:
-                mk = lambda f=f, **kw: pa.Check(lambda s, f=f: (s if level != "frame" else s["a"]).map(f), **kw)
+                fn, extra = shapes[shape](f)
+                mk = lambda fn=fn, extra=extra, **kw: pa.Check(fn, **extra, **kw)
             if level == "index" and not vec:
                 continue
+            tag = level if shape in ("series", "raises") else f"{level}[{shape}]"
             plain = _run(level, mk(), vec, "default")
             warn = _run(level, mk(raise_warning=True), vec, "default")
             if warn[0] != "pass":
-                viol.setdefault(("raise_warning.never_raises", f"{level}:{'raising_fn' if f is None else 'failing'}:{warn[0]}"), f"vec={vec} pred={pname}")
+                viol.setdefault(("raise_warning.never_raises", f"{tag}:{'raising_fn' if f is None else 'failing'}:{warn[0]}"), f"vec={vec} pred={pname}")
                 continue
             if (plain[0] != "pass") != (warn[2] > 0):
-                viol.setdefault(("raise_warning.warns_iff_fails", f"{level}:plain={plain[0]}:warnings={warn[2]}"), f"vec={vec} pred={pname}")
+                viol.setdefault(("raise_warning.warns_iff_fails", f"{tag}:plain={plain[0]}:warnings={warn[2]}"), f"vec={vec} pred={pname}")
     return viol, n
 
 
@@ -286,6 +299,32 @@ def _rel_groupby(maxlen):
                     if got.get("d") != want:
                         viol.setdefault(("groupby.exact_groups", f"{'callable' if groupby == 'callable' else type(groupby).__name__}:groups={groups}:{grep}"),
                                         f"vec={vec} g={gs} got={got.get('d')} want={want}")
+    # raise_warning on a groupby check (its output is one bool per call: there are no per-element failure cases)
+    for vec in _vectors(maxlen):
+        L = len(vec)
+        if L == 0:
+            continue
+        for gs in itertools.product(glabels[:2], repeat=L):
+            df = pd.DataFrame({"a": pd.Series(vec, dtype="float64"), "g": list(gs)}, index=_index("ints", L))
+            for pname, f in PREDS.items():
+                n += 1
+                fn = lambda d, f=f: all(bool(v.dropna().map(f).all()) for v in d.values())
+                out = {}
+                for rw in (False, True):
+                    schema = pa.DataFrameSchema({"a": pa.Column(float, pa.Check(fn, groupby="g", raise_warning=rw), nullable=True), "g": pa.Column(str)})
+                    with warnings.catch_warnings(record=True) as w:
+                        warnings.simplefilter("always")
+                        try:
+                            schema.validate(df, lazy=True)
+                            out[rw] = ("pass", sum(1 for x in w if issubclass(x.category, pa.errors.SchemaWarning)))
+                        except pa.errors.SchemaErrors:
+                            out[rw] = ("fail", 0)
+                        except Exception as e:  # noqa
+                            out[rw] = ("exc:" + type(e).__name__, 0)
+                if out[True][0] != "pass":
+                    viol.setdefault(("raise_warning.never_raises", f"groupby:failing:{out[True][0]}"), f"vec={vec} g={gs} pred={pname}")
+                elif (out[False][0] != "pass") != (out[True][1] > 0):
+                    viol.setdefault(("raise_warning.warns_iff_fails", f"groupby:plain={out[False][0]}:warnings={out[True][1]}"), f"vec={vec} g={gs} pred={pname}")
     return viol, n
 
 
